@@ -37,6 +37,7 @@ PROPS = {
             "parts": [
                 {"name": "differential", "test": "TestC14Differential", "quick_checks": 400, "thorough_checks": 40000, "thorough_shards": 16},
                 {"name": "packages", "test": "TestC14Packages", "quick_checks": 300, "thorough_checks": 20000, "thorough_shards": 16},
+                {"name": "gc", "vehicle": "overlay", "pkg": "internal/packages/internal/packagedeploy", "test": "TestC14GC", "quick_checks": 1500, "thorough_checks": 80000, "thorough_shards": 16},
                 {"name": "collision", "vehicle": "overlay", "pkg": "internal/packages/internal/packagedeploy", "test": "TestC14Collision", "quick_checks": 200, "thorough_checks": 3200, "thorough_shards": 16},
                 {"name": "chunking", "vehicle": "overlay", "pkg": "internal/packages/internal/packagedeploy", "test": "TestC14Chunking", "quick_checks": 1200, "thorough_checks": 16000, "thorough_shards": 16},
             ]},
@@ -66,6 +67,7 @@ PROPS = {
                 {"name": "oci", "test": "TestC19OCI", "quick_checks": 3000, "thorough_checks": 300000, "thorough_shards": 16},
                 {"name": "config", "test": "TestC19Config", "quick_checks": 5000, "thorough_checks": 500000, "thorough_shards": 16},
                 {"name": "reconcile", "test": "TestC19Reconcile", "quick_checks": 1500, "thorough_checks": 120000, "thorough_shards": 16},
+                {"name": "packages", "test": "TestC19Packages", "quick_checks": 600, "thorough_checks": 40000, "thorough_shards": 16},
                 {"name": "probe", "test": "TestC19Probe", "quick_checks": 5000, "thorough_checks": 600000, "thorough_shards": 16},
                 {"name": "fuzz-oci", "fuzz": "FuzzC19OCI", "test": "TestC19OCI", "thorough_only": True, "thorough_seconds": 240, "replayable": False,
                  "rule": "native coverage-guided fuzzing (go test -fuzz, 16 workers) of packages.FromOCI on raw layer bytes, seeded with valid, truncated and non-tar layers; oracle inside the target: no panic; evaluations = executions reported by the fuzzing engine; non-trivial = inputs that reached new coverage and were kept in the corpus"},
@@ -81,6 +83,7 @@ PROPS = {
         "assumptions": ENGINE_ASSUMPTIONS,
         "parts": [
             {"name": "engine", "test": "TestC01", "quick_checks": 800, "thorough_checks": 60000, "thorough_shards": 16},
+            {"name": "teardown", "test": "TestC01Teardown", "quick_checks": 500, "thorough_checks": 30000, "thorough_shards": 16},
         ],
     },
     "C02": {
